@@ -5,3 +5,7 @@ import PhyloModel.Props.C08
 #print axioms C08.cache_keys_are_the_leaves
 #print axioms C08.cache_values_are_depths
 #print axioms C08.path_length_needs_leaves
+#print axioms C08.dm_fast_correct
+#print axioms C08.dm_fast_correct_forest
+#print axioms C08.dm_fast_total
+#print axioms C08.dm_fast_eq_rose
